@@ -172,4 +172,31 @@ def splitLeWitness (U : Problem) (ps : List Problem) (perm : List Nat) (lams : L
   natsSubset A.boolVars B.boolVars &&
   decide (lams.length = A.rows.length) && (A.rows.zip lams).all fun q => rowImplied q.1 B.rows q.2
 
+/-! ### objectives that differ by a combination of rows
+
+A storage with `cost_store` pays for the level, and the level after a step is cumulative: in the unsplit problem
+the cost entry of a step counts all later steps of the horizon, in an interval problem only those of the interval.
+The two cost vectors differ by a multiple of the interval's end-level rows — which vanish on the feasible set of
+the block sum.  The witness below accepts, instead of equal cost vectors, a certificate that
+`(c_B − c_A)·x ≥ 0` follows from the rows of the block sum (then the unsplit value of a transported split-feasible
+point is at least its split value). -/
+
+/-- coefficients of `(cB − cA)·x` -/
+def costDiff (cA cB : List Rat) : List (Nat × Rat) :=
+  (List.range cB.length).map fun j => (j, cB.getD j 0 - cA.getD j 0)
+
+/-- equal cost vectors, or `(cB − cA)·x ≥ 0` certified from `rows` with the multipliers `lamC` -/
+def costCert (cA cB : List Rat) (rows : List Row) (lamC : List Rat) : Bool :=
+  decide (cA = cB) || (decide (cA.length = cB.length) && geCert (costDiff cA cB) 0 rows lamC)
+
+/-- the one-sided witness with a certified (instead of an equal) objective -/
+def splitLeWitnessC (U : Problem) (ps : List Problem) (perm : List Nat) (lams : List (List Rat))
+    (lamC : List Rat) : Bool :=
+  let A := U.renameAlong perm
+  let B := blockSum ps
+  U.wfIdx && ps.all Problem.wfIdx && isPermOf perm U.n &&
+  decide (A.n = B.n) && costCert A.c B.c B.rows lamC && vecLe A.l B.l && vecLe B.u A.u &&
+  natsSubset A.boolVars B.boolVars &&
+  decide (lams.length = A.rows.length) && (A.rows.zip lams).all fun q => rowImplied q.1 B.rows q.2
+
 end EAO
